@@ -327,6 +327,11 @@ pub fn connection_start(r: &mut Rng, o: &Opts) -> (Vec<u8>, Structure) {
                 let (sid, ex, dep, w) = (1 + 2 * r.below(8) as u32, r.chance(1, 3), r.below(16) as u32, r.u8());
                 let mut p = (dep | if ex { 0x8000_0000 } else { 0 }).to_be_bytes().to_vec();
                 p.push(w);
+                // one PRIORITY frame in ten is longer than its five defined bytes (the first five still say what they say)
+                if r.chance(1, 10) {
+                    let extra = r.urange(1, 6);
+                    p.extend_from_slice(&r.bytes(extra));
+                }
                 let fl = if r.chance(1, 8) { r.u8() } else { 0 };
                 out.extend_from_slice(&frame(2, fl, sid, &p));
                 st.priorities.push((sid, ex, dep, w));
@@ -494,6 +499,14 @@ pub fn connection_start(r: &mut Rng, o: &Opts) -> (Vec<u8>, Structure) {
     if flags & F_END_STREAM == 0 && r.chance(1, 2) {
         let n = r.urange(1, 200);
         out.extend_from_slice(&frame(0, F_END_STREAM, sid, &r.bytes(n)));
+    }
+    // settings may change later in the connection: one stream in five sends another SETTINGS frame behind the first
+    // message (header table size 0 or small, other parameters) - it governs what follows, not what came before
+    if r.chance(1, 5) {
+        let mut later = random_settings(r, false);
+        later.retain(|(id, _)| *id != 1);
+        later.push((1, *r.pick(&[0u32, 0, 64, 4096, 65536])));
+        out.extend_from_slice(&frame(4, 0, 0, &settings_payload(&later)));
     }
     // further streams: one indexed header field each (0x82 = :method GET, 0x88 = :status 200)
     let mut next_sid = sid + 2;
